@@ -322,8 +322,10 @@ where
                 let mut uuid = None;
                 let mut data = None;
 
-                while let Some(key) = map.next_key()? {
-                    match key {
+                // Owned keys: borrowed `&str` keys only work with deserializers that can lend
+                // from their input (`from_str`/`from_slice`), not with `from_reader`.
+                while let Some(key) = map.next_key::<String>()? {
+                    match key.as_str() {
                         "uuid" => {
                             if uuid.is_some() {
                                 return Err(de::Error::duplicate_field("uuid"));
